@@ -386,6 +386,16 @@ func c16History(c *h.Ctx, id string, r *rand.Rand) {
 	clients := 2 + r.Intn(3)
 	perClient := 6 + r.Intn(5)
 	inherit := r.Intn(2) == 0
+	// at least two concurrent writers whenever there are three clients; "hot" histories keep all
+	// writers on one or two prefixes so that remove / re-add of the same entry collide
+	writers := 1
+	if clients >= 3 {
+		writers = 2 + r.Intn(clients-2)
+	}
+	hotPrefixes := 3
+	if r.Intn(2) == 0 {
+		hotPrefixes = 1 + r.Intn(2)
+	}
 	var mu sync.Mutex
 	var ops []porcupine.Operation
 	t0 := time.Now()
@@ -402,11 +412,11 @@ func c16History(c *h.Ctx, id string, r *rand.Rand) {
 			rr := rand.New(rand.NewSource(seeds[ci]))
 			<-start
 			for k := 0; k < perClient; k++ {
-				in := c16In{Prefix: c16Prefixes[rr.Intn(3)], Face: uint64(1 + rr.Intn(2)), Cost: uint64(rr.Intn(3))}
+				in := c16In{Prefix: c16Prefixes[rr.Intn(hotPrefixes)], Face: uint64(1 + rr.Intn(2)), Cost: uint64(rr.Intn(3))}
 				if inherit {
 					in.Flags = uint64(rr.Intn(2))
 				}
-				writer := ci%2 == 0
+				writer := ci < writers
 				switch {
 				case writer && rr.Intn(3) != 0:
 					in.Op = "add"
@@ -501,7 +511,7 @@ func c16Run(c *h.Ctx) {
 			c16Pipeline(c, id, c.Rng(id))
 		}
 	}
-	for k := 0; k < c.Pick(40, 1500); k++ {
+	for k := 0; k < c.Pick(400, 3000); k++ {
 		id := fmt.Sprintf("hist%d", k)
 		if c.Case(id) {
 			c16History(c, id, c.Rng(id))
